@@ -351,4 +351,64 @@ theorem match_nonglobal_eq (E : Model.Eng) (S : Spec.SEng) (t : List Nat) (L : L
   unfold Model.builtinStringMatch Spec.stringMatch
   simp only [hg, Bool.not_false, if_true]
   exact exec_eq E S t L rx
+
+/-! ## String.prototype.replace: the concatenation, and function results used verbatim -/
+
+theorem slice_self (t : List Nat) (a : Nat) : slice t a a = [] := by
+  unfold slice
+  rw [List.drop_eq_nil_iff]
+  simp [List.length_take]; omega
+
+/-- otto's replace loop (copy the gap only when it is non-empty, append the tail only when it is
+    non-empty) is the §15.5.4.11 concatenation, for EVERY list of matches and EVERY replacer `f` -/
+theorem replaceLoop_eq (t : List Nat) (f : Caps → List Nat) : ∀ (found : List Caps) (li : Nat) (acc : List Nat),
+    (let p := Model.replaceLoop t f found li acc
+     if p.2 ≠ t.length then p.1 ++ t.drop p.2 else p.1) = Spec.replaceLoop t f found li acc := by
+  intro found; induction found with
+  | nil =>
+    intro li acc
+    simp only [Model.replaceLoop, Spec.replaceLoop]
+    by_cases h : li = t.length
+    · subst h; simp
+    · simp [h]
+  | cons mt rest ih =>
+    intro li acc
+    simp only [Model.replaceLoop, Spec.replaceLoop]
+    by_cases h : capStart mt = li
+    · have := ih (capEnd mt) (acc ++ f mt)
+      simp only [h, ne_eq, not_true_eq_false, if_false, slice_self, List.append_nil]
+      exact this
+    · have := ih (capEnd mt) (acc ++ slice t li (capStart mt) ++ f mt)
+      simp only [ne_eq, h, not_false_eq_true, if_true]
+      exact this
+
+/-- **a function's result is used verbatim**: with a constant function as replaceValue and a single
+    match (a, b), the result is  t[0:a] ++ ret ++ t[b:]  whatever `ret` contains (`$&`, `$1`, `$$` …) -/
+theorem replace_const_single (t ret : List Nat) (mt : Caps) :
+    (let p := Model.replaceLoop t (fun _ => ret) [mt] 0 []
+     if p.2 ≠ t.length then p.1 ++ t.drop p.2 else p.1) = t.take (capStart mt) ++ ret ++ t.drop (capEnd mt) := by
+  rw [replaceLoop_eq]
+  simp [Spec.replaceLoop, slice]
+
+/-- the per-match replacement text of the three kinds of replaceValue, as the code computes it -/
+def modelF (t : List Nat) : Repl → Caps → List Nat
+  | .str rv => fun mt => Model.expand t mt rv
+  | .report => fun mt => Model.reportArgs (Model.replacerArgs t mt)
+  | .const ret => fun _ => ret
+
+/-- String.prototype.replace returns the §15.5.4.11 concatenation over the matches the engine found,
+    for every engine, every subject and every replaceValue -/
+theorem replace_is_concat (E : Model.Eng) (rx : RX) (t : List Nat) (repl : Repl) :
+    (Model.builtinStringReplace E rx t repl).2 =
+      .str (Model.jsStr (Spec.replaceLoop t (modelF t repl) (Model.findAll E t (if rx.global then none else some 1)) 0 [])) := by
+  unfold Model.builtinStringReplace
+  simp only
+  cases hf : Model.findAll E t (if rx.global then none else some 1) with
+  | nil => simp [Spec.replaceLoop]
+  | cons mt rest =>
+    simp only [List.isEmpty_cons, Bool.false_eq_true, if_false]
+    have := replaceLoop_eq t (modelF t repl) (mt :: rest) 0 []
+    simp only at this
+    rw [← this]
+    cases repl <;> simp only [modelF] <;> split <;> simp_all
 end OttoVerif.C10.Lem
